@@ -30,36 +30,257 @@ def extract():
     if not table: raise ExtractError("to_error_code: no arms")
     sr = test_mod_cut(strip(read("src/server_request.rs")))
     rb = fn_body(sr, "route")
-    marks = [("version", r"header\.version\s*!=\s*REPE_VERSION"), ("queryFormat", r"QueryFormat::try_from"),
+    # a check that is not found is simply absent from `routeOrder` (the order theorem then fails); a version test
+    # with another operator, a notify test of another shape, another default for unknown query formats are FACTS
+    vt = re.search(r"header\.version\s*(!=|==|>=|<=|>|<)\s*REPE_VERSION", rb)
+    marks = [("version", r"header\.version\s*(?:!=|==|>=|<=|>|<)\s*REPE_VERSION"), ("queryFormat", r"QueryFormat::try_from"),
              ("utf8", r"from_utf8"), ("lookup", r"router\.get\(")]
     pos = []
     for name, rx in marks:
         mm = re.search(rx, rb)
-        if not mm: raise ExtractError(f"route: {name} check not found")
-        pos.append((mm.start(), name))
+        if mm: pos.append((mm.start(), name))
     order = [n for _, n in sorted(pos)]
     # codes used by each reject, by textual position
     rejects = [(mm.start(), mm.group(1)) for mm in re.finditer(r"code:\s*ErrorCode::(\w+)", rb)]
     def code_after(rx):
-        p = re.search(rx, rb).start()
+        mm = re.search(rx, rb)
+        if not mm: return "Ok"
         for q, c in rejects:
-            if q > p: return c
-        raise ExtractError("route: reject code")
+            if q > mm.start(): return c
+        return "Ok"
     route_codes = {"version": code_after(marks[0][1]), "utf8": code_after(marks[2][1]),
                    "rawBinary": code_after(r"QueryFormat::RawBinary\s*=>"), "lookup": code_after(r"None\s*=>")}
     notify_test = re.search(r"let notify\s*=\s*header\.notify\s*==\s*(\d+)\s*;", rb)
-    if not notify_test: raise ExtractError("route: notify test")
     unknown_qf = re.search(r"QueryFormat::try_from\([^)]*\)\.unwrap_or\(QueryFormat::(\w+)\)", rb)
-    if not unknown_qf: raise ExtractError("route: unknown query format default")
-    return {"codes": {f: disc[k] for k, f in CODE_FIELDS}, "toErrorCode": sorted(table), "routeOrder": order,
-            "routeCodes": {k: disc[v] for k, v in route_codes.items()}, "notifyValue": int(notify_test.group(1)),
-            "unknownQueryFormatIs": unknown_qf.group(1)}
+    facts = {"codes": {f: disc[k] for k, f in CODE_FIELDS}, "toErrorCode": sorted(table), "routeOrder": order,
+             "routeCodes": {k: disc[v] for k, v in route_codes.items()}, "notifyValue": int(notify_test.group(1)) if notify_test else 0,
+             "unknownQueryFormatIs": unknown_qf.group(1) if unknown_qf else "?", "versionTestIsNe": bool(vt and vt.group(1) == "!="),
+             "routeRejectSites": len(re.findall(r"RouteOutcome::Reject\s*\{", rb)), "routeDispatchSites": len(re.findall(r"RouteOutcome::Dispatch\s*\{", rb))}
+    facts.update(handler_facts(disc, dict(table)))
+    facts["serve"] = serve_facts(sr)
+    return facts
+
+
+# ---------------------------------------------------------------------------------------------------------
+# built-in handlers: decode sites, entry points, serve loops.
+# Rule: a form that is not recognised at a *dangerous* site (an accepted-format arm that does not hand the raw body to
+# one of the known strict decoders, a notify branch, an echo argument, a flush, a send, the teardown) becomes a
+# pessimistic FACT (strict = false, code 0, flag false) so that a theorem breaks; it never raises. Only the absence
+# of a whole function raises (-> the committed defaults; the tie is then the correspondence alone).
+# ---------------------------------------------------------------------------------------------------------
+BODY_FORMATS = {"RawBinary": 0, "Beve": 1, "Json": 2, "Utf8": 3}
+BODY_ARG = r"\(\s*(?:&\s*req\.body|&\s*request\.body|view\.body|body)\s*\)"
+KINDS = [("JsonHandler", "json"), ("JsonHandlerCtx", "jsonCtx"), ("TypedHandler", "typed"), ("TypedHandlerCtx", "typedCtx"),
+         ("TypedSliceHandler", "slice"), ("TypedSliceRefHandler", "sliceRef"), ("JsonTypedAdapter", "adapter"),
+         ("RegisteredRegistry", "registry"), ("RegisteredStruct", "struct")]
+
+
+def norm(t):
+    return " ".join(t.split())
+
+
+def match_arms(text, start=0):
+    """Arms [(pattern, expr)] of the first `match … {` at or after `start` in stripped text."""
+    m = re.compile(r"\bmatch\b[^{;]*\{").search(text, start)
+    if not m: raise ExtractError("match not found")
+    i = m.end() - 1
+    body = text[i + 1:match_brace(text, i) - 1]
+    arms, depth, cur, k = [], 0, [], 0
+    while k < len(body):
+        ch = body[k]
+        if ch in "{([": depth += 1
+        elif ch in "})]": depth -= 1
+        cur.append(ch)
+        end_block = ch == "}" and depth == 0 and "=>" in "".join(cur) and norm("".join(cur)).split("=>", 1)[1].lstrip().startswith("{")
+        if (ch == "," and depth == 0) or end_block or k == len(body) - 1:
+            t = norm("".join(cur)).rstrip(",").strip()
+            if "=>" in t:
+                pat, ex = t.split("=>", 1)
+                arms.append((pat.strip(), ex.strip()))
+            cur = []
+        k += 1
+    return arms
+
+
+def classify_decode(ex):
+    """Which strict decoder an accepted arm hands the raw body to, or None."""
+    if re.search(r"serde_json::from_slice(::<\w+>)?" + BODY_ARG, ex) and "?" in ex: return "Json"
+    if re.search(r"(beve_from_slice|beve::from_slice)(::<\w+>)?" + BODY_ARG, ex) and "?" in ex: return "Beve"
+    if re.search(r"(read_typed_slice_body|decode_typed_slice_ref_body)(::<\w+>)?" + BODY_ARG, ex) and "?" in ex: return "Beve"
+    if re.search(r"std::str::from_utf8" + BODY_ARG + r"\.map_err\(RegistryError::InvalidUtf8\)\?", ex): return "InvalidUtf8"
+    if re.search(r"Value::Array\(\s*req\.body\.iter\(\)", ex): return "infallible"
+    return None
+
+
+def decode_site(text, start, disc, fail_code_of, fail_is_err, reject_code_of=None):
+    """DecodeFacts of the body-format `match` at `start`."""
+    arms = match_arms(text, start)
+    accepts, fails, strict, reject = [], set(), True, None
+    for pat, ex in arms:
+        names = re.findall(r"Ok\(BodyFormat::(\w+)\)", pat)
+        catch_all = pat == "_" or "Err(_)" in pat
+        if catch_all or (names and re.search(r"create_error_response|UnsupportedBodyFormat|on_bad_format", ex) and classify_decode(ex) is None):
+            # rejecting arm(s): the code of the error response
+            mm = re.search(r"ErrorCode::(\w+)", ex)
+            code = disc.get(mm.group(1), 0) if mm else (reject_code_of(ex) if reject_code_of else 0)
+            if catch_all: reject = code if reject in (None, code) else 0
+            elif code != (reject if reject is not None else code): reject = 0
+            elif reject is None: reject = code
+            continue
+        if not names:
+            strict = False    # an arm we cannot read
+            continue
+        kind = classify_decode(ex)
+        for n in names:
+            if n in BODY_FORMATS: accepts.append(BODY_FORMATS[n])
+        if kind is None: strict = False
+        elif kind != "infallible": fails.add(fail_code_of(kind))
+    fail = fails.pop() if len(fails) == 1 else 0
+    return {"accepts": sorted(set(accepts)), "rejectCode": reject or 0, "failCode": fail, "failIsErr": fail_is_err, "strict": strict}
+
+
+def handler_facts(disc, to_code):
+    srv = test_mod_cut(strip(read("src/server.rs")))
+    reg = test_mod_cut(strip(read("src/registry.rs")))
+    repe_fail = lambda kind: to_code.get(kind, 0)
+    sites = {}
+    for fn in ["decode_json_param", "decode_json_param_view", "decode_typed_param", "decode_typed_param_view",
+               "decode_typed_slice_param", "decode_typed_slice_param_view"]:
+        m = re.search(r"\bfn\s+" + fn + r"\b", srv)
+        if not m: raise ExtractError(f"fn {fn}")
+        sites[fn] = dict(decode_site(srv, m.end(), disc, repe_fail, True), emptySkips=False)
+    # borrowed-slice route: one gate shared by both entry points, the error response is a closure argument
+    m = re.search(r"\bfn\s+decode_typed_slice_ref_param\b", srv)
+    if not m: raise ExtractError("fn decode_typed_slice_ref_param")
+    ref_impl = impl_block(srv, r"HandlerErased\s+for\s+TypedSliceRefHandler\b[^{]*\{")
+    for entry, fn in [("owned", "handle"), ("view", "handle_view")]:
+        b = norm(fn_body(ref_impl, fn))
+        mm = re.search(r"decode_typed_slice_ref_param::<\w+>\(\s*(?:req|view)\.header\.body_format\s*,\s*&?\s*(?:req|view)\.body\s*,\s*\|\|\s*\{?\s*create_error_response_\w+\(\s*(?:req|view)\s*,\s*ErrorCode::(\w+)", b)
+        code = disc.get(mm.group(1), 0) if mm else 0
+        sites["decode_typed_slice_ref_param@" + entry] = dict(decode_site(srv, m.end(), disc, repe_fail, True, reject_code_of=lambda ex: code), emptySkips=False)
+    # JsonTypedAdapter / RegisteredStruct decode inline in `handle`
+    ad = impl_block(srv, r"HandlerErased\s+for\s+JsonTypedAdapter\b[^{]*\{")
+    sites["adapter"] = dict(decode_site(ad, 0, disc, repe_fail, True), emptySkips=False)
+    st = impl_block(srv, r"HandlerErased\s+for\s+RegisteredStruct\b[^{]*\{")
+    hb = fn_body(st, "handle")
+    mm = re.search(r"let\s+body\s*=\s*if\s+req\.body\.is_empty\(\)\s*\{\s*None\s*\}\s*else\s*\{", hb)
+    sites["struct"] = dict(decode_site(hb, mm.end() if mm else 0, disc, repe_fail, True), emptySkips=bool(mm))
+    # Registry::decode_body + RegistryError::code; the mounted handler turns the error into a response itself
+    rcode = {}
+    for arm in re.finditer(r"((?:RegistryError::\w+\s*(?:\([^)]*\)|\{[^}]*\})?\s*\|?\s*)+)=>\s*ErrorCode::(\w+)", fn_body(reg, "code")):
+        for v in re.findall(r"RegistryError::(\w+)", arm.group(1)): rcode[v] = disc.get(arm.group(2), 0)
+    db = fn_body(reg, "decode_body")
+    skips = bool(re.search(r"if\s+req\.body\.is_empty\(\)\s*\{\s*return\s+Ok\(None\)\s*;\s*\}", db))
+    rr = impl_block(srv, r"HandlerErased\s+for\s+RegisteredRegistry\b[^{]*\{")
+    as_response = all(re.search(r"Registry::decode_body\(req\)\s*\{\s*Ok\(value\)\s*=>\s*value\s*,\s*Err\(err\)\s*=>\s*return\s+Ok\(create_error_response_like\(req,\s*err\.code\(\)", norm(fn_body(rr, f))) for f in ["handle", "handle_with_ctx"])
+    site = decode_site(db, 0, disc, lambda kind: rcode.get(kind, 0), False, reject_code_of=lambda ex: rcode.get("UnsupportedBodyFormat", 0))
+    if not as_response: site["strict"] = False
+    sites["registry"] = dict(site, emptySkips=skips)
+    # which decode site each (kind, entry point) uses, and who overrides handle_view
+    decode, overrides = {}, []
+    flags = {}
+    for ty, kind in KINDS + [("MiddlewarePipeline", None), ("OffReaderHandler", None)]:
+        blk = impl_block(srv, r"HandlerErased\s+for\s+" + ty + r"\b[^{]*\{")
+        has_view = bool(re.search(r"\bfn\s+handle_view\b", blk))
+        if kind is None:
+            flags[ty] = has_view
+            if ty == "MiddlewarePipeline":
+                flags["fwd"] = norm(fn_body(blk, "execution")) == "self.handler.execution()"
+            continue
+        if has_view: overrides.append(kind)
+        owned_fn = "handle_with_ctx" if re.search(r"\bfn\s+handle_with_ctx\b", blk) and kind in ("jsonCtx", "typedCtx", "registry") else "handle"
+        for entry, fn in [("owned", owned_fn), ("view", "handle_view" if has_view else owned_fn)]:
+            if kind in ("adapter", "struct", "registry"):
+                decode[(kind, entry)] = sites[kind]
+                continue
+            if kind == "sliceRef":
+                decode[(kind, entry)] = sites["decode_typed_slice_ref_param@" + entry]
+                continue
+            used = set(re.findall(r"\b(decode_\w+)\s*(?:::<[^>]*>)?\(", fn_body(blk, fn)))
+            site = sites.get(next(iter(used))) if len(used) == 1 else None
+            decode[(kind, entry)] = site if site else {"accepts": [], "rejectCode": 0, "failCode": 0, "failIsErr": True, "strict": False, "emptySkips": False}
+    return {"decode": {f"{k}.{e}": v for (k, e), v in decode.items()}, "viewOverrides": overrides,
+            "pipelineOverridesView": flags["MiddlewarePipeline"], "offReaderOverridesView": flags["OffReaderHandler"],
+            "pipelineForwardsExecution": flags["fwd"]}
+
+
+def serve_facts(sr):
+    f = {}
+    dv, do = norm(fn_body(sr, "dispatch_view")), norm(fn_body(sr, "dispatch"))
+    for key, body, call in [("view", dv, r"handler\.handle_view\(view, ctx\)"), ("owned", do, r"handler\.handle_with_ctx\(req, ctx\)")]:
+        run = r"(?:let _\w* = " + call + r"|_ = " + call + r"|drop\(" + call + r"\)|" + call + r"\.ok\(\));"
+        silent = bool(re.match(r"if notify \{ " + run + r" return None; \} Some\(match " + call + r" \{", body))
+        n = len(re.findall(r"handler\.handle\w*\(", body))
+        f[key + "NotifySilent"] = silent
+        f[key + "HandlerCalls"] = 1 if (silent and n == 2) or n == 1 else n
+    rv = norm(fn_body(sr, "route_request_view"))
+    f["viewRejectNotifySilent"] = bool(re.search(r"RouteOutcome::Reject \{ notify, code, message,? \} => \(!notify\)\.then\(\|\| create_error_response_unstamped_view\(view, code, message\)\)", rv))
+    # blocking and async TCP loops
+    srv = test_mod_cut(strip(read("src/server.rs")))
+    asv = test_mod_cut(strip(read("src/async_server.rs")))
+    def some_block(body):
+        m = re.search(r"if\s+let\s+Some\(resp\)\s*=\s*route_request_view\(&router,\s*&view\)\s*\{", body)
+        if not m: return None
+        i = m.end() - 1
+        return norm(body[i + 1:match_brace(body, i) - 1])
+    helper = r"(?:crate::message::|message::)?response_echo_query\(&resp, view\.query\)"
+    echo_let = r"let (\w+) = " + helper + ";"
+    def echo_name(block):
+        mm = re.search(echo_let, block)
+        # the name must be bound exactly once (a second `let echo = …` would replace the helper's result)
+        if mm and len(re.findall(r"\blet (?:mut )?" + re.escape(mm.group(1)) + r"\b", block)) != 1: return "?rebound"
+        return mm.group(1) if mm else None
+    tb = some_block(fn_body(srv, "handle_connection"))
+    tn = echo_name(tb) if tb else None
+    targ = (re.escape(tn) if tn else helper)            # the helper's result by name, or the call written inline
+    f["tcpEchoHelper"] = bool(tb and re.search(r"write_message_streaming\( ?&mut writer, resp\.header, " + targ + ",", tb))
+    f["tcpFlushEach"] = bool(tb and re.fullmatch(r"(?:" + echo_let + r" )?write_message_streaming\(.*\)\?; writer\.flush\(\)\?;", tb))
+    ab = some_block(fn_body(asv, "handle_connection"))
+    if ab:
+        an = echo_name(ab)
+        args = re.findall(r"write_view_response\(&mut writer, &resp, ((?:[^()]|\([^()]*\))*)\)", ab)
+        f["atcpEchoHelper"] = len(args) >= 1 and all((an and a.strip() == an) or re.fullmatch(helper, a.strip()) for a in args)
+        ifs = re.findall(r"\bif\b[^{]*\{", ab)
+        f["atcpFlushEach"] = len(args) >= 1 and len(re.findall(r"writer\.flush\(\)", ab)) == len(args) and all(norm(x) == "if let Some(dur) = write_timeout {" for x in ifs) \
+            and not re.search(r"\.ok\(\)|let _ =", ab)
+    else:
+        f["atcpEchoHelper"] = f["atcpFlushEach"] = False
+    # WebSocket reader / off-reader / teardown
+    ws = test_mod_cut(strip(read("src/websocket_server.rs")))
+    rt = fn_body(ws, "reader_task")
+    arms = match_arms(rt, rt.find("match route("))
+    rej = next((ex for pat, ex in arms if pat.startswith("RouteOutcome::Reject")), "")
+    stamp_b = r"stamp_response_query\(&mut response, Cow::Borrowed\(view\.query\)\);"
+    send = r"if conn\.outbound_tx\.send\(response\)\.await\.is_err\(\) \{ break; \}"
+    f["wsRejectNotifySilent"] = bool(re.fullmatch(r"\{ if !notify \{ let mut response = create_error_response_unstamped_view\(&view, code, message\); " + stamp_b + " " + send + r" \} \}", rej))
+    nrt = norm(rt)
+    inline = re.search(r"Execution::Inline => \{ let ctx = [^;]*; if let Some\(mut response\) = dispatch_view\(handler\.as_ref\(\), &view, &ctx, notify\) \{ " + stamp_b + " " + send + r" \} \}", nrt)
+    f["wsStampInline"] = bool(inline) and bool(re.search(stamp_b, rej))
+    f["wsSendInOrder"] = bool(inline) and len(re.findall(r"outbound_tx\.send\(response\)\.await", nrt)) == 2 and not re.search(r"try_send|spawn\(", nrt)
+    so = fn_body(ws, "spawn_off_reader")
+    m = re.search(r"spawn_blocking\(\s*move\s*\|\|\s*\{", so)
+    if m:
+        i = m.end() - 1
+        clo = norm(so[i + 1:match_brace(so, i) - 1])
+        head = clo.split("dispatch(handler.as_ref(), &request, &ctx, notify)")[0] if "dispatch(handler.as_ref(), &request, &ctx, notify)" in clo else None
+        f["wsOffRunsAlways"] = head is not None and not re.search(r"\breturn\b|\bif\b", head)
+        f["wsStampOff"] = bool(re.search(r"if let Some\(mut response\) = response \{ stamp_response_query\(&mut response, Cow::Owned\(request\.query\)\); let _ = outbound_tx\.blocking_send\(response\); \}", clo))
+    else:
+        f["wsOffRunsAlways"] = f["wsStampOff"] = False
+    hc = fn_body(ws, "handle_connection_with_config")
+    m = re.search(r"let\s+reader_result\s*=\s*\{", hc)
+    if m:
+        after = norm(hc[match_brace(hc, m.end() - 1):])
+        f["wsDrainOnExit"] = bool(re.match(r"; let _ = shutdown_tx\.send\(\(\)\); let writer_result = match writer_guard\.await \{.*\}; reader_result\.and\(writer_result\)$", after))
+    else:
+        f["wsDrainOnExit"] = False
+    return f
 
 
 def render(f):
     c = f["codes"]
     L = ["import RepeVerif.Model.Dispatch",
-         "/-! GENERATED by /verif/extract/dispatch.py from /repo (src/constants.rs, error.rs, server_request.rs). -/",
+         "/-! GENERATED by /verif/extract/dispatch.py from /repo (src/constants.rs, error.rs, server_request.rs, server.rs, registry.rs, async_server.rs, websocket_server.rs). -/",
          "namespace Repe.Gen",
          "def codes : Codes := ⟨" + ", ".join(str(c[k]) for _, k in CODE_FIELDS) + "⟩",
          "def toErrorCode : List (String × Nat) := [" + ", ".join(f'("{v}", {n})' for v, n in f["toErrorCode"]) + "]",
@@ -70,7 +291,22 @@ def render(f):
          f"def routeLookupCode : Nat := {f['routeCodes']['lookup']}",
          f"def notifyValue : Nat := {f['notifyValue']}",
          f"def unknownQueryFormatIsRawBinary : Bool := {'true' if f['unknownQueryFormatIs'] == 'RawBinary' else 'false'}",
-         "end Repe.Gen"]
+         f"def versionTestIsNe : Bool := {'true' if f['versionTestIsNe'] else 'false'}",
+         f"def routeRejectSites : Nat := {f['routeRejectSites']}",
+         f"def routeDispatchSites : Nat := {f['routeDispatchSites']}",
+         ]
+    b = lambda x: "true" if x else "false"
+    L.append("def decodeFacts : HKind → Entry → DecodeFacts")
+    for k in ["json", "jsonCtx", "typed", "typedCtx", "slice", "sliceRef", "adapter", "registry", "struct"]:
+        for e in ["owned", "view"]:
+            d = f["decode"][f"{k}.{e}"]
+            L.append(f"  | .{k}, .{e} => ⟨{d['accepts']}, {d['rejectCode']}, {d['failCode']}, {b(d['failIsErr'])}, {b(d['emptySkips'])}, {b(d['strict'])}⟩")
+    L.append("def entryFacts : EntryFacts := ⟨[" + ", ".join("." + k for k in f["viewOverrides"]) + f"], {b(f['pipelineOverridesView'])}, {b(f['offReaderOverridesView'])}, {b(f['pipelineForwardsExecution'])}⟩")
+    sv = f["serve"]
+    order = ["viewNotifySilent", "ownedNotifySilent", "viewRejectNotifySilent", "wsRejectNotifySilent", "viewHandlerCalls", "ownedHandlerCalls",
+             "tcpEchoHelper", "atcpEchoHelper", "wsStampInline", "wsStampOff", "wsOffRunsAlways", "tcpFlushEach", "atcpFlushEach", "wsSendInOrder", "wsDrainOnExit"]
+    L.append("def serveFacts : ServeFacts :=\n  { " + "\n    ".join(f"{k} := {sv[k] if isinstance(sv[k], int) and not isinstance(sv[k], bool) else b(sv[k])}" for k in order) + " }")
+    L.append("end Repe.Gen")
     return "\n".join(L) + "\n"
 
 
